@@ -1,6 +1,7 @@
 #!/bin/bash
 # apply every behaviour-preserving refactor of /verif/refactors to /repo in turn, run all checks, expect silence
 cd /verif
+exec 9>/tmp/verif-repo.lock; flock 9
 for P in refactors/*/r*.diff; do
   if ! git -C /repo diff --quiet; then echo "repo dirty"; exit 3; fi
   git -C /repo apply /verif/$P || { echo "$P: does not apply"; continue; }
